@@ -116,7 +116,27 @@ for _ in range(N):
     y, e = rand_dec(), rng.randint(-8, 3)
     case("round_decimal", f"deribit_round_decimal {lr(y)} {li(e)}", "shR", lambda: round_decimal(y, e))
 
-HEAD = """import Demeter.Gen.PyLiquitidyMath
+    # ---- broker wallet: Asset.add / Asset.sub (object field self.balance read as balance-in -> balance-out)
+    from demeter.broker._typing import Asset
+    bal = rng.choice([Decimal(0), rand_dec(), rand_dec(-3, 8, 6)])
+    amt2 = rng.choice([Decimal(0), bal, bal * Decimal("1.000001"), bal * Decimal("1.00002"), bal * Decimal("0.99999"), bal * Decimal("0.9999999"),
+                       bal * (1 + Decimal(rng.randint(-30, 30)) / Decimal(10 ** 6)), rand_dec(), -rand_dec(-3, 8, 6)])
+    allow = rng.random() < 0.3
+
+    def asset_sub():
+        a_ = Asset(TokenInfo("x", 18), bal)
+        a_.sub(amt2, allow)
+        return a_.balance
+
+    def asset_add():
+        a_ = Asset(TokenInfo("x", 18), bal)
+        a_.add(amt2)
+        return a_.balance
+    case("asset_sub", f"asset_sub NumCtx.py {lr(bal)} {lr(amt2)} {'true' if allow else 'false'}", "shR", asset_sub)
+    case("asset_add", f"asset_add NumCtx.py {lr(bal)} {lr(amt2)}", "shR", asset_add)
+
+HEAD = """import Demeter.Gen.PyBrokerTyping
+import Demeter.Gen.PyLiquitidyMath
 import Demeter.Gen.PyAaveCore
 import Demeter.Gen.PyDeribitMarket
 open Demeter Demeter.Py
